@@ -325,6 +325,15 @@ func registerReflect(p *Program) {
 		case Slice:
 			return sym.BVC(64, uint64(x.Len))
 		case Str:
+			if x.Op != nil {
+				// an opaque string: only its emptiness is known (id 0 is the empty string)
+				if x.Op.IsConst() && x.Op.Val == 0 {
+					return sym.BVC(64, 0)
+				}
+				n := e.NewInput("ostr.len", sym.BV(64))
+				e.Assume(sym.Not(sym.Eq(n, sym.BVC(64, 0))))
+				return sym.Ite(sym.Eq(x.Op, sym.BVC(64, 0)), sym.BVC(64, 0), n)
+			}
 			return sym.BVC(64, uint64(x.Len()))
 		case MapRef:
 			return sym.BVC(64, uint64(e.mapLen(x)))
